@@ -224,6 +224,9 @@ class NPShim(types.ModuleType):
     @staticmethod
     def isclose(a, b, rtol=1e-05, atol=1e-08, **kw):
         if isinstance(a, (SV, SInt)) or isinstance(b, (SV, SInt)):
+            ta, tb = core.tz(a), core.tz(b)
+            if ta is not NotImplemented and tb is not NotImplemented and core.const_of(core.canon(ta - tb)) == 0:
+                return True     # identical polynomials
             return abs(a - b) <= atol + rtol * abs(b)
         if _is_symarr(a) or _is_symarr(b):
             a, b = _np.broadcast_arrays(_np.asarray(a, dtype=object), _np.asarray(b, dtype=object))
